@@ -4,6 +4,7 @@ package main
 // query AST; the real engine runs the rendered SQL, the model runs the same AST.
 
 import (
+	"reflect"
 	"math"
 	"unicode"
 	"unicode/utf8"
@@ -32,6 +33,10 @@ type engIn struct {
 	// the model folds ASCII case itself and takes Go's strings.ToLower as an oracle for every other letter, so it is
 	// given the document and the pattern with the non-ASCII runes already lowered. Observe verifies that the pair
 	// really is that transform of (Doc, Q), so a replay file cannot smuggle in a different question.
+	// ShareEqual: deep-equal inner arrays of one parent array are made to share ONE backing slice before the real
+	// code runs (a document built in Go rather than decoded from JSON): what an array contains does not depend on
+	// whether two of its elements are the same object.
+	ShareEqual bool `json:"share_equal,omitempty"`
 	ModelDoc map[string]any `json:"model_doc,omitempty"`
 	ModelQ   *Stmt          `json:"model_q,omitempty"`
 }
@@ -122,6 +127,9 @@ func observeEngine(in engIn) (Observed, error) {
 				}
 			}
 		}
+	}
+	if in.ShareEqual {
+		shareEqual(doc)
 	}
 	before := deepCopy(doc)
 	var out engineOut
@@ -563,4 +571,26 @@ func runEngineReexec(doc map[string]any, sql string, opts ...genql.QueryOption) 
 		return engineOut{Class: "error", Err: err.Error()}
 	}
 	return engineOut{Class: "ok", Rows: normaliseRows(res)}
+}
+
+// shareEqual: see engIn.ShareEqual.
+func shareEqual(v any) {
+	switch t := v.(type) {
+	case map[string]any:
+		for _, x := range t {
+			shareEqual(x)
+		}
+	case []any:
+		for i := range t {
+			shareEqual(t[i])
+			if a, ok := t[i].([]any); ok && len(a) > 0 {
+				for j := 0; j < i; j++ {
+					if b, ok := t[j].([]any); ok && reflect.DeepEqual(a, b) {
+						t[i] = b
+						break
+					}
+				}
+			}
+		}
+	}
 }
